@@ -830,7 +830,17 @@ class ASTStubGenerator(BaseStubGenerator, mypy.traverser.TraverserVisitor):
 
     def visit_class_def(self, o: ClassDef) -> None:
         self._class_stack.append(o)
+        # State of the enclosing class (if any), restored when this class is done.
+        outer_state = (
+            self.method_names,
+            self.processing_enum,
+            self.processing_dataclass,
+            self.dataclass_field_specifier,
+        )
         self.method_names = find_method_names(o.defs.body)
+        self.processing_enum = False
+        self.processing_dataclass = False
+        self.dataclass_field_specifier = ()
         sep: int | None = None
         if self.is_top_level() and self._state != EMPTY:
             sep = len(self._output)
@@ -876,11 +886,13 @@ class ASTStubGenerator(BaseStubGenerator, mypy.traverser.TraverserVisitor):
             self._state = EMPTY_CLASS
         else:
             self._state = CLASS
-        self.method_names = set()
-        self.processing_dataclass = False
-        self.dataclass_field_specifier = ()
+        (
+            self.method_names,
+            self.processing_enum,
+            self.processing_dataclass,
+            self.dataclass_field_specifier,
+        ) = outer_state
         self._class_stack.pop(-1)
-        self.processing_enum = False
 
     def get_base_types(self, cdef: ClassDef) -> list[str]:
         """Get list of base classes for a class."""
